@@ -678,7 +678,7 @@ MASS = ["kilogram", "gram", "pound"]
 FAMILIES = [LEN, TIME, MASS]
 
 
-def gen_expr(rng, vars_, depth, positive=False):
+def gen_expr(rng, vars_, depth, positive=False, allow_pow=False):
     """random expression tree as nested tuples; `positive`: usable as a divisor (no subtraction,
     positive leaves) so that the float computation is well conditioned and never divides by an
     exact zero"""
@@ -691,22 +691,24 @@ def gen_expr(rng, vars_, depth, positive=False):
         if not positive and rng.random() < 0.3:
             mant = -mant
         return ("qty", str(F(mant, rng.choice([1, 10, 100]))), rng.choice(fam))
-    ops = ["add", "mul", "div", "scale", "to"] + ([] if positive else ["sub", "sub"])
+    ops = ["add", "mul", "div", "scale", "to"] + ([] if positive else ["sub", "sub"]) + (["pow"] if allow_pow else [])
     op = rng.choice(ops)
     if op in ("add", "sub"):
-        a = gen_expr(rng, vars_, depth - 1, positive)
-        b = gen_expr(rng, vars_, depth - 1, positive)
+        a = gen_expr(rng, vars_, depth - 1, positive, allow_pow)
+        b = gen_expr(rng, vars_, depth - 1, positive, allow_pow)
         return (op, a, b)
     if op == "mul":
-        return ("mul", gen_expr(rng, vars_, depth - 1, positive), gen_expr(rng, vars_, depth - 1, positive))
+        return ("mul", gen_expr(rng, vars_, depth - 1, positive, allow_pow), gen_expr(rng, vars_, depth - 1, positive, allow_pow))
     if op == "div":
-        return ("div", gen_expr(rng, vars_, depth - 1, positive), gen_expr(rng, vars_, depth - 1, True))
+        return ("div", gen_expr(rng, vars_, depth - 1, positive, allow_pow), gen_expr(rng, vars_, depth - 1, True, allow_pow))
     if op == "scale":
         c = F(rng.randint(1, 50), rng.choice([1, 2, 4, 10]))
         if not positive and rng.random() < 0.3:
             c = -c
-        return ("scale", str(c), gen_expr(rng, vars_, depth - 1, positive))
-    return ("to", gen_expr(rng, vars_, depth - 1, positive), None)
+        return ("scale", str(c), gen_expr(rng, vars_, depth - 1, positive, allow_pow))
+    if op == "pow":
+        return ("pow", gen_expr(rng, vars_, depth - 1, positive, allow_pow), rng.choice([2, 2, 3]))
+    return ("to", gen_expr(rng, vars_, depth - 1, positive, allow_pow), None)
 
 
 class Skip(Exception):
@@ -747,6 +749,282 @@ def run_expr(w, e, objs, rng):
     if k == "mul":
         return a * b, f"(XMul {ta} {tb})"
     return a / b, f"(XDiv {ta} {tb})"
+
+
+
+# ---------------------------------------------------------------------------- derived measurements keep their correlations
+# A measurement that is the RESULT of an operation (+ - * / ** scalar multiple, .to()) is the same
+# uncertain number as the expression it was computed from: combined again with one of its ancestors
+# the correlations must show (m - m.to('cm') = 0 ± 0, 3*m - m = 2v ± 2σ, (m*t)/m has t's error only).
+# The oracle evaluates one expression tree (shared variables, conversions filled in) three ways:
+#   * on Measurement objects (variables built by every constructor form),
+#   * on Quantity objects holding THE SAME ufloats,
+#   * on bare ufloats with the exact conversion slopes (reference: `uncertainties` alone),
+# and compares nominal value, std_dev and units; the Measurement result minus the Quantity result
+# must have no uncertainty at all.
+TEMPS = ["kelvin", "degree_Celsius", "degree_Fahrenheit", "degree_Rankine"]
+
+
+def fam_of(name):
+    for i, f in enumerate(FAMILIES):
+        if name in f:
+            return i
+    return "T" if name in TEMPS else None
+
+
+def expr_units(fe, V):
+    """units of a filled expression by pint's rules for multiplicative units ({name: Fraction})"""
+    k = fe[0]
+    if k == "var":
+        return {V[fe[1]][2]: F(1)}
+    if k == "qty":
+        return {fe[2]: F(1)}
+    if k == "scale":
+        return expr_units(fe[2], V)
+    if k == "to":
+        return {n: F(x) for n, x in fe[2].items()}
+    if k == "pow":
+        return {n: x * fe[2] for n, x in expr_units(fe[1], V).items()}
+    a, b = expr_units(fe[1], V), expr_units(fe[2], V)
+    if k in ("add", "sub"):
+        return a
+    out = dict(a)
+    for n, x in b.items():
+        out[n] = out.get(n, 0) + (x if k == "mul" else -x)
+    return {n: x for n, x in out.items() if x != 0}
+
+
+def dims_of(units):
+    d = {}
+    for n, x in units.items():
+        f = fam_of(n)
+        d[f] = d.get(f, 0) + x
+    return {f: x for f, x in d.items() if x != 0}
+
+
+def fill_expr(e, V, rng):
+    """choose the target of every 'to' node (another unit of the same family per factor); refuse
+    dimensionally invalid sums"""
+    k = e[0]
+    if k in ("var", "qty"):
+        return e
+    if k == "scale":
+        return ("scale", e[1], fill_expr(e[2], V, rng))
+    if k == "pow":
+        return ("pow", fill_expr(e[1], V, rng), e[2])
+    if k == "to":
+        a = fill_expr(e[1], V, rng)
+        if e[2] is not None:
+            return ("to", a, e[2])
+        nd = {}
+        for name, ex in expr_units(a, V).items():
+            f = fam_of(name)
+            new = rng.choice(FAMILIES[f]) if isinstance(f, int) else name
+            nd[new] = nd.get(new, 0) + ex
+        nd = {n: x for n, x in nd.items() if x != 0}
+        if len(nd) != len(expr_units(a, V)):
+            raise Skip()
+        return ("to", a, {n: str(x) for n, x in nd.items()})
+    a, b = fill_expr(e[1], V, rng), fill_expr(e[2], V, rng)
+    if k in ("add", "sub") and dims_of(expr_units(a, V)) != dims_of(expr_units(b, V)):
+        raise Skip()
+    return (k, a, b)
+
+
+def eval_objs(w, fe, objs):
+    """a filled expression on pint objects"""
+    k = fe[0]
+    if k == "var":
+        return objs[fe[1]]
+    if k == "qty":
+        return w.Q(float(F(fe[1])), fe[2])
+    if k == "scale":
+        return float(F(fe[1])) * eval_objs(w, fe[2], objs)
+    if k == "pow":
+        return eval_objs(w, fe[1], objs) ** fe[2]
+    if k == "to":
+        dst = w.ureg.UnitsContainer({n: (int(F(x)) if F(x).denominator == 1 else float(F(x))) for n, x in fe[2].items()})
+        return eval_objs(w, fe[1], objs).to(dst)
+    a, b = eval_objs(w, fe[1], objs), eval_objs(w, fe[2], objs)
+    return a + b if k == "add" else a - b if k == "sub" else a * b if k == "mul" else a / b
+
+
+def unit_affine(w, src, dst):
+    """exact (a, b) of the conversion between two unit dicts, from the Fraction registry"""
+    if src == dst:
+        return F(1), F(0)
+    mk = lambda d: w.ur.UnitsContainer({n: (int(x) if F(x).denominator == 1 else F(x)) for n, x in d.items()})
+    cs, cd = mk(src), mk(dst)
+    b = w.ur.convert(F(0), cs, cd)
+    a1 = w.ur.convert(F(1), cs, cd)
+    return F(a1) - F(b), F(b)
+
+
+def eval_ref(w, fe, atoms, V, companion=False):
+    """the reference: the same expression on bare ufloats (`uncertainties` alone) with the exact
+    conversion slopes.  companion=True evaluates the magnitude bound: absolute values, every
+    subtraction an addition, x/y as x·y/y0² — the std_dev of the result bounds the size of the
+    derivative terms, so tolerances are relative to what the float computation carried"""
+    k = fe[0]
+    if k == "var":
+        return atoms[fe[1]]
+    if k == "qty":
+        x = float(F(fe[1]))
+        return abs(x) if companion else x
+    if k == "scale":
+        c = float(F(fe[1]))
+        return (abs(c) if companion else c) * eval_ref(w, fe[2], atoms, V, companion)
+    if k == "pow":
+        return eval_ref(w, fe[1], atoms, V, companion) ** fe[2]
+    if k == "to":
+        a, b = unit_affine(w, expr_units(fe[1], V), {n: F(x) for n, x in fe[2].items()})
+        x = eval_ref(w, fe[1], atoms, V, companion)
+        return abs(float(a)) * x + abs(float(b)) if companion else float(a) * x + float(b)
+    x, y = eval_ref(w, fe[1], atoms, V, companion), eval_ref(w, fe[2], atoms, V, companion)
+    if k in ("add", "sub"):
+        a, b = unit_affine(w, expr_units(fe[2], V), expr_units(fe[1], V))
+        if companion:
+            return x + (abs(float(a)) * y + abs(float(b)))
+        y2 = y if (a, b) == (1, 0) else float(a) * y + float(b)
+        return x + y2 if k == "add" else x - y2
+    if k == "mul":
+        return x * y
+    if companion:
+        y0 = getattr(y, "nominal_value", y)
+        return x * y / (y0 * y0)
+    return x / y
+
+
+def nom_std(x):
+    m = getattr(x, "magnitude", x)
+    if hasattr(m, "nominal_value"):
+        return float(m.nominal_value), float(m.std_dev)
+    return float(m), 0.0
+
+
+CTOR_FORMS = ["nums", "pm", "ufloat", "qtyu"]
+
+
+def oracle_derived(w, plan):
+    """plan: {"vars": {i: [value text, sigma text, unit, constructor form]}, "expr": filled tree}"""
+    from uncertainties import ufloat
+    V = {int(i): (None, None, x[2]) for i, x in plan["vars"].items()}
+    fe = untuple(plan["expr"])
+    ms, qs, atoms, comp = {}, {}, {}, {}
+    for i, (vt, st, u, form) in ((int(i), x) for i, x in plan["vars"].items()):
+        v, s_ = float(vt), float(st)
+        if form == "nums":
+            ms[i] = w.M(v, s_, u)
+        elif form == "pm":
+            ms[i] = w.Q(v, u).plus_minus(s_)
+        elif form == "ufloat":
+            ms[i] = w.M(ufloat(v, s_), u)
+        else:
+            ms[i] = w.M(w.Q(ufloat(v, s_), u))
+        qs[i] = w.Q(ms[i].magnitude, u)          # the same uncertain number, Quantity class
+        atoms[i] = ufloat(v, s_)
+        comp[i] = ufloat(abs(v), s_)
+    try:
+        rm = eval_objs(w, fe, ms)
+    except Exception as e:
+        try:
+            eval_objs(w, fe, qs)
+        except type(e):
+            return []
+        except Exception:
+            pass
+        return [(f"derived:error:{type(e).__name__}", f"{plan}: the Measurement expression raises {type(e).__name__}: {e}")]
+    rq = eval_objs(w, fe, qs)
+    ref = eval_ref(w, fe, atoms, V)
+    bound = eval_ref(w, fe, comp, V, companion=True)
+    bn, bs = nom_std(bound)
+    tn, ts_ = 1e-9 * abs(bn), 1e-9 * bs
+    n_m, s_m = nom_std(rm)
+    n_q, s_q = nom_std(rq)
+    n_r, s_r = nom_std(ref)
+    fails = []
+    shape = expr_shape(fe)
+    want_units = expr_units(fe, V)
+    if ucd(rm._units) != want_units:
+        fails.append((f"derived:units:{shape}", f"{plan}: units {dict(rm._units)}, expected {want_units}"))
+    if abs(n_m - n_r) > tn:
+        fails.append((f"derived:nominal:{shape}", f"{plan}: Measurement result {n_m!r} ± {s_m!r}; first-order propagation on the bare ufloats gives {n_r!r} ± {s_r!r}"))
+    if abs(s_m - s_r) > ts_:
+        fails.append((f"derived:std:{shape}",
+                      f"{plan}: Measurement result {n_m!r} ± {s_m!r}; first-order propagation on the bare ufloats gives "
+                      f"{n_r!r} ± {s_r!r} (Quantity holding the same ufloats: {n_q!r} ± {s_q!r}) — a derived measurement "
+                      f"lost its correlation with the operands it was computed from"))
+    if abs(s_q - s_r) > ts_ or abs(n_q - n_r) > tn:
+        fails.append((f"derived:quantity-ufloat:{shape}", f"{plan}: Quantity(ufloat) result {n_q!r} ± {s_q!r}; reference {n_r!r} ± {s_r!r}"))
+    try:
+        d = rm - rq
+        n_d, s_d = nom_std(d)
+        if abs(s_d) > ts_ or abs(n_d) > tn:
+            fails.append((f"derived:identity:{shape}",
+                          f"{plan}: the Measurement result minus the Quantity(ufloat) result of the SAME expression over the same "
+                          f"ufloats is {n_d!r} ± {s_d!r}, not 0 ± 0: the result is no longer the same uncertain number"))
+    except Exception as e:
+        fails.append((f"derived:identity-error:{type(e).__name__}", f"{plan}: {e}"))
+    return fails
+
+
+def oracle_ufloat_identity(w, plan):
+    """Measurement(u, unit) for a ufloat u is u itself with units: it is fully correlated with u"""
+    from uncertainties import ufloat
+    x = ufloat(float(plan["v"]), float(plan["s"]))
+    m = w.M(x, plan["unit"])
+    fails = []
+    d = m.magnitude - x
+    tol = 1e-9 * float(plan["s"])
+    if abs(d.std_dev) > tol or abs(d.nominal_value) > 1e-9 * abs(float(plan["v"])):
+        fails.append(("ufloat-identity:magnitude", f"Measurement(u, {plan['unit']!r}).magnitude - u = {d!r} for u = ufloat({plan['v']}, {plan['s']}): not 0 ± 0"))
+    try:
+        if plan["unit"] not in ("degC",):
+            dq = m - w.Q(x, plan["unit"])
+            n_d, s_d = nom_std(dq)
+            if abs(s_d) > tol:
+                fails.append(("ufloat-identity:quantity", f"Measurement(u, {plan['unit']!r}) - Quantity(u, {plan['unit']!r}) = {dq!r}: not 0 ± 0"))
+    except Exception as e:
+        fails.append((f"ufloat-identity:error:{type(e).__name__}", f"{plan}: {e}"))
+    return fails
+
+
+def untuple(e):
+    if isinstance(e, (list, tuple)):
+        return tuple(untuple(x) for x in e)
+    return e
+
+
+def expr_shape(fe):
+    """coarse shape for the violation key: which operations a derived value goes through"""
+    ops = set()
+
+    def walk(x):
+        if isinstance(x, tuple) and x and isinstance(x[0], str):
+            if x[0] not in ("var", "qty"):
+                ops.add(x[0])
+            for y in x[1:]:
+                walk(y)
+    walk(fe)
+    return "+".join(sorted(ops)) or "leaf"
+
+
+def derived_templates(u_len, u_len2, u_time):
+    """the multi-step histories in which a derived measurement meets its own ancestor (vars: 1 a
+    length, 2 a time, 3 a temperature in kelvin)"""
+    m, t, k = ("var", 1), ("var", 2), ("var", 3)
+    return [
+        ("sub", m, ("to", m, {u_len2: "1"})),
+        ("sub", ("scale", "3", m), m),
+        ("add", ("add", m, m), m),
+        ("div", ("mul", m, t), m),
+        ("mul", ("div", m, t), t),
+        ("div", ("pow", m, 2), m),
+        ("sub", ("to", ("to", m, {u_len2: "1"}), {u_len: "1"}), m),
+        ("sub", k, ("to", ("to", k, {"degree_Celsius": "1"}), {"kelvin": "1"})),
+        ("sub", ("to", ("to", k, {"degree_Fahrenheit": "1"}), {"kelvin": "1"}), k),
+        ("div", ("to", ("mul", m, m), {u_len2: "2"}), m),
+    ]
 
 
 # ---------------------------------------------------------------------------- the run
@@ -1060,6 +1338,63 @@ def run(ck):
         done += 1
     ck.extra["expression_cases"] = done
 
+    # derived measurements keep their correlations (oracle only; see oracle_derived)
+    n_der = 0
+    for form in CTOR_FORMS:
+        for _ in range(3 if thorough else 1):
+            u_len, u_len2 = rng.sample(LEN, 2)
+            u_time = rng.choice(TIME)
+            decade = rng.randint(-6, 6)
+            vars_ = {"1": [dec(rng.randint(1, 9999), decade)[1], dec(rng.randint(1, 999), decade - 2)[1], u_len, form],
+                     "2": [dec(rng.randint(1, 9999), rng.randint(-3, 3))[1], dec(rng.randint(1, 999), -3)[1], u_time, rng.choice(CTOR_FORMS)],
+                     "3": [dec(rng.randint(1000, 9999), -1)[1], dec(rng.randint(1, 99), -1)[1], "kelvin", form]}
+            for fe in derived_templates(u_len, u_len2, u_time):
+                plan = {"kind": "derived", "vars": vars_, "expr": fe}
+                try:
+                    record(oracle_derived(w, plan), plan)
+                except Exception as exn:
+                    fails.append((f"derived-oracle-error:{type(exn).__name__}", f"{plan}: {exn}", plan))
+                ck.case(key=("derived", json.dumps(plan, sort_keys=True)))
+                n_der += 1
+    tries = 0
+    target = n_der + (900 if thorough else 160)
+    while n_der < target and tries < 40 * target:
+        tries += 1
+        nv = rng.randint(1, 3)
+        decade = rng.randint(-20, 17)
+        V = {}
+        vars_ = {}
+        for i in range(1, nv + 1):
+            u = rng.choice(rng.choice(FAMILIES))
+            vt = dec(rng.randint(1, 9999), decade + rng.randint(-2, 2))[1]
+            st = dec(rng.randint(1, 999), decade + rng.randint(-5, 0))[1]
+            V[i] = (None, None, u)
+            vars_[str(i)] = [vt, st, u, rng.choice(CTOR_FORMS)]
+        e = gen_expr(rng, V, rng.randint(2, 4), allow_pow=True)
+        try:
+            fe = fill_expr(e, V, rng)
+        except Skip:
+            continue
+        plan = {"kind": "derived", "vars": vars_, "expr": fe}
+        try:
+            record(oracle_derived(w, plan), plan)
+        except (OverflowError, ZeroDivisionError):
+            continue
+        except Exception as exn:
+            fails.append((f"derived-oracle-error:{type(exn).__name__}", f"{plan}: {exn}", plan))
+        ck.case(key=("derived", json.dumps(plan, sort_keys=True)))
+        n_der += 1
+    ck.count("derived-correlation", n_der)
+    # the ufloat-plus-unit form is the very same uncertain number as the ufloat it was given
+    for _ in range(40 if thorough else 12):
+        vt, st = dec(rng.randint(1, 9999), rng.randint(-10, 10))[1], dec(rng.randint(1, 999), rng.randint(-12, 8))[1]
+        u = rng.choice(["m", "s", "kelvin", "degC", "kg", ""])
+        x = ufloat(float(vt), float(st))
+        plan = {"kind": "ufloat-identity", "v": vt, "s": st, "unit": u}
+        record(oracle_ufloat_identity(w, plan), plan)
+        ck.case(key=("ufloat-identity", vt, st, u))
+        ck.count("ufloat-identity")
+
     # unit rules incl. offset units: Measurement / Quantity(ufloat) against plain quantities (oracle only)
     rule_units = ["m", "cm", "s", "kg", "degC", "degF", "kelvin", "delta_degC", "m/s", "", "degC*m", "1/kelvin"]
     for _ in range(1200 if thorough else 300):
@@ -1171,6 +1506,10 @@ def replay(ck, path):
         fl = oracle_convert(w, float(rp["v"]), float(rp["s"]), rp["src"], rp["dst"])
     elif k == "unit-rules":
         fl = oracle_unit_rules(w, rp["op"], tuple(rp["a"]), tuple(rp["b"]))
+    elif k == "derived":
+        fl = oracle_derived(w, rp)
+    elif k == "ufloat-identity":
+        fl = oracle_ufloat_identity(w, rp)
     elif k == "format":
         fl, text = oracle_format(w, F(rp["v"]), F(rp["s"]), rp["unit"], rp["spec"])
         print("rendered:", text)
